@@ -1,0 +1,59 @@
+//! Verification hook (cfg ordinals_ord_verif only): records what
+//! `Updater::index_utxo_entries` asks the fetcher for, what it receives and for
+//! which input, and the value it ends up using for every transaction input.
+//! Read-only with respect to the index; with the guard off this file is not
+//! compiled and the three call sites in updater.rs do not exist.
+use {super::*, std::sync::Mutex};
+
+#[derive(Debug, Clone, PartialEq, Eq)]
+pub enum Event {
+  /// pre-pass: `output_sender.blocking_send(outpoint)`
+  Request { height: u32, outpoint: OutPoint },
+  /// processing loop: `txout_receiver.blocking_recv()` returned `value` while looking up `outpoint`
+  Receive {
+    height: u32,
+    outpoint: OutPoint,
+    value: u64,
+  },
+  /// processing loop: the parsed input entries of one non-coinbase transaction
+  Inputs {
+    height: u32,
+    txid: Txid,
+    values: Vec<(OutPoint, u64)>,
+  },
+}
+
+static LOG: Mutex<Vec<Event>> = Mutex::new(Vec::new());
+
+pub(super) fn request(height: u32, outpoint: OutPoint) {
+  LOG.lock().unwrap().push(Event::Request { height, outpoint });
+}
+
+pub(super) fn receive(height: u32, outpoint: OutPoint, value: u64) {
+  LOG.lock().unwrap().push(Event::Receive {
+    height,
+    outpoint,
+    value,
+  });
+}
+
+pub(super) fn inputs(height: u32, txid: Txid, tx: &Transaction, entries: &[utxo_entry::ParsedUtxoEntry]) {
+  if entries.is_empty() {
+    return;
+  }
+  LOG.lock().unwrap().push(Event::Inputs {
+    height,
+    txid,
+    values: tx
+      .input
+      .iter()
+      .zip(entries)
+      .map(|(input, entry)| (input.previous_output, entry.total_value()))
+      .collect(),
+  });
+}
+
+/// Drain the log (events of every index updated in this process since the last call).
+pub fn take() -> Vec<Event> {
+  std::mem::take(&mut *LOG.lock().unwrap())
+}
